@@ -483,11 +483,13 @@ theorem flow_FindClientNode : Gen.Flow.FindClientNode =
      "end",
      "return state.NodeID, connectionID, nil"] := by decide
 
-/-- `CloseConnection` = `closeConnection`: connMap, registry (`RemoveControlConnection`), then `UnregisterConnection` —
+/-- `CloseConnection` = `closeConnection`: connMap (and, for a connMap entry, its stream: the id may come back), registry
+(`RemoveControlConnection`), then `UnregisterConnection` —
 and no registry query in between or before (the extractor lists `getControlConnectionByConnID`, `GetControlConnection`,
 `clientRegistry.GetByConnID/GetByClientID` too; none occurs). -/
 theorem skel_CloseConnection : Gen.Skel.CloseConnection =
-    ["delete", "RemoveControlConnection", "RemoveTunnelConnection", "connStateStore.UnregisterConnection"] := by decide
+    ["delete", "streamMgr.RemoveStream", "RemoveControlConnection", "RemoveTunnelConnection",
+     "connStateStore.UnregisterConnection"] := by decide
 
 /-- The consumers of the lookup reach the store through `FindClientNode` only (no `UnregisterConnection` /
 `RegisterConnection` / `RefreshConnection`, no registry removal).  `FindClientNode` reads only: one `Get` of the index, then `GetConnectionState` (one `Get` of the record; its only
